@@ -153,6 +153,48 @@ def _dual(inner, names):
     return Dual()
 
 
+def _inner(make_comp, names):
+    """the component is CONSTRUCTED under one DependencyContext and elaborated under another (the simulator's), and its
+    methods are called by transactions INSIDE the design (a small user module); enables/arguments/results are plain
+    signals: `<name>_en`, `<name>_arg`, `<name>_done`, `<name>_res`"""
+    from amaranth import Elaboratable, Signal
+    from transactron import TModule, Transaction
+    from transactron.utils.dependencies import DependencyContext, DependencyManager
+
+    with DependencyContext(DependencyManager()):  # not the manager the design is elaborated under
+        comp = make_comp()
+
+    class User(Elaboratable):
+        def __init__(self):
+            self.inner = comp
+            self.sig = {}
+            for nm in names:
+                meth = getattr(comp, nm)
+                self.sig[nm] = {"en": Signal(name=f"{nm}_en"), "done": Signal(name=f"{nm}_done")}
+                if meth.layout_in.members:
+                    self.sig[nm]["arg"] = Signal(meth.layout_in.members["data"], name=f"{nm}_arg")
+                if meth.layout_out.members:
+                    self.sig[nm]["res"] = Signal(meth.layout_out.members["data"], name=f"{nm}_res")  # declared result shape
+
+        def elaborate(self, platform):
+            m = TModule()
+            m.submodules.inner = self.inner
+            for nm in names:
+                meth = getattr(self.inner, nm)
+                sg = self.sig[nm]
+                with Transaction(name=f"user_{nm}").body(m, ready=sg["en"]):
+                    if "arg" in sg:
+                        res = meth(m, data=sg["arg"])
+                    else:
+                        res = meth(m)
+                    m.d.comb += sg["done"].eq(1)
+                    if "res" in sg:
+                        m.d.comb += _v(sg["res"]).eq(_v(res.data))
+            return m
+
+    return User()
+
+
 # ------------------------------------------------------------------ implementation runners
 
 _sims: dict[tuple, CompSim] = {}
@@ -163,7 +205,15 @@ def _sim(key: tuple) -> CompSim:
     if key not in _sims:
         from transactron.lib.stream import StreamModuleWrapper, StreamSink, StreamSource
 
-        if key[0] == "source":
+        if key[-1] == "inner":
+            if key[0] == "source":
+                _sims[key] = CompSim(lambda: _inner(lambda: StreamSource(_shape(key[1])), ["write"]))
+            elif key[0] == "sink":
+                _sims[key] = CompSim(lambda: _inner(lambda: StreamSink(_shape(key[1])), ["read", "peek"]))
+            else:
+                _, kind, w, k, ish, osh, _ = key
+                _sims[key] = CompSim(lambda: _inner(lambda: StreamModuleWrapper(_make_mod(kind, w, k, ish, osh)), ["write", "read"]))
+        elif key[0] == "source":
             _sims[key] = CompSim(lambda: _dual(StreamSource(_shape(key[1])), ["write"]))
         elif key[0] == "sink":
             _sims[key] = CompSim(lambda: _dual(StreamSink(_shape(key[1])), ["read", "peek"]))
@@ -184,6 +234,8 @@ def _first_single(tr, a, b):
 def prio(key: tuple) -> dict:
     """which of the two callers the real TransactionManager prefers when both attempt (fixed per elaborated circuit;
     an artefact of the manager's ordering, so it is probed, not predicted)"""
+    if key[-1] == "inner":
+        return {"wp": 0, "rp": 0}  # one caller per method
     if key not in _prio:
         sim = _sim(key)
         d = sim.dut.inner
@@ -208,17 +260,83 @@ def _opt(v):
 
 
 def _key(d: dict) -> tuple:
-    if d["comp"] == "wrap":
-        return ("wrap", d["mod"], d["w"], d["k"], d["ish"], d["osh"])
-    return (d["comp"], d["shape"])
+    k = ("wrap", d["mod"], d["w"], d["k"], d["ish"], d["osh"]) if d["comp"] == "wrap" else (d["comp"], d["shape"])
+    return k + ("inner",) if d.get("inner") else k
+
+
+def _impl_inner(case: Case, sim: CompSim, ins: list[dict]) -> list[str]:
+    """same observation lines as the two-caller runner; caller 1 does not exist (never attempts)"""
+    d = case.desc
+    user = sim.dut
+    comp = user.inner
+    sg = user.sig
+    f = lambda done, v: str(v) if done else "-"  # noqa: E731
+    lines = []
+    if d["comp"] == "source":
+
+        def pre(ctx, k):
+            ctx.set(comp.o.ready, int(ins[k]["rdy"]))
+            ctx.set(sg["write"]["en"], int(ins[k]["w0"] != "-"))
+            ctx.set(_v(sg["write"]["arg"]), 0 if ins[k]["w0"] == "-" else int(ins[k]["w0"]))
+
+        tr = sim.run([{}] * len(ins), extra=lambda x: [comp.o.valid, _v(comp.o.payload), comp.write.ready, sg["write"]["done"]], pre_cycle=pre)
+        for r in tr:
+            e = r["_extra"]
+            lines.append(f"valid={e[0]} payload={e[1]} wrdy={e[2]} w0={e[3]} w1=0")
+    elif d["comp"] == "sink":
+
+        def pre(ctx, k):
+            ctx.set(comp.i.valid, int(ins[k]["v"]))
+            ctx.set(_v(comp.i.payload), int(ins[k]["p"]))
+            ctx.set(sg["read"]["en"], int(ins[k]["r0"]))
+            ctx.set(sg["peek"]["en"], int(ins[k]["k0"]))
+
+        tr = sim.run(
+            [{}] * len(ins),
+            extra=lambda x: [comp.i.ready, sg["read"]["done"], _v(sg["read"]["res"]), sg["peek"]["done"], _v(sg["peek"]["res"])],
+            pre_cycle=pre,
+        )
+        for r in tr:
+            e = r["_extra"]
+            lines.append(f"rdy={e[0]} r0={f(e[1], e[2])} r1=- k0={f(e[3], e[4])} k1=-")
+    else:
+        mod = comp.module
+
+        def pre(ctx, k):
+            ctx.set(sg["write"]["en"], int(ins[k]["w0"] != "-"))
+            ctx.set(_v(sg["write"]["arg"]), 0 if ins[k]["w0"] == "-" else int(ins[k]["w0"]))
+            ctx.set(sg["read"]["en"], int(ins[k]["r0"]))
+
+        tr = sim.run(
+            [{}] * len(ins),
+            extra=lambda x: [comp.write.ready, mod.i.valid, mod.ip.as_unsigned(), mod.i.ready, mod.o.valid, mod.op, mod.o.ready,
+                             sg["write"]["done"], sg["read"]["done"], _v(sg["read"]["res"])],
+            pre_cycle=pre,
+        )
+        for r in tr:
+            e = r["_extra"]
+            lines.append(f"wrdy={e[0]} w0={e[7]} w1=0 r0={f(e[8], e[9])} r1=- iv={e[1]} ip={e[2]} ir={e[3]} ov={e[4]} op={e[5]} or={e[6]}")
+    out = ["ok"]
+    it = iter(lines)
+    for o in case.ops:
+        if o.startswith("shape"):
+            out.append(
+                f"shape w={shape_name(comp.write.layout_in.members['data'])} r={shape_name(comp.read.layout_out.members['data'])} "
+                f"mi={shape_name(comp.module.i.payload.shape())} mo={shape_name(comp.module.o.payload.shape())}"
+            )
+        else:
+            out.append(next(it))
+    return out
 
 
 def impl(case: Case) -> list[str]:
     d = case.desc
     sim = _sim(_key(d))
-    dut = sim.dut.inner
     cyc = [o for o in case.ops if o.startswith("cyc")]
     ins = [_parse(o) for o in cyc]
+    if d.get("inner"):
+        return _impl_inner(case, sim, ins)
+    dut = sim.dut.inner
     f = lambda v: "-" if v is None else str(v)  # noqa: E731
     b = lambda v: 0 if v is None else 1  # noqa: E731
     lines = []
@@ -430,7 +548,7 @@ def _two(rng, p_any: float, p_both: float):
     return (1, 0) if rng.random() < 0.5 else (0, 1)
 
 
-def _mk_source(rng, shape: str, kind: str, n: int, pw: float, tag="random") -> Case:
+def _mk_source(rng, shape: str, kind: str, n: int, pw: float, tag="random", inner=False) -> Case:
     w = WIDTH[shape]
     hist: list[int] = []  # predicted valid per cycle (stimulus shaping only)
     valid = 0
@@ -440,16 +558,18 @@ def _mk_source(rng, shape: str, kind: str, n: int, pw: float, tag="random") -> C
         hist.append(valid)
         r = rd(t)
         a0, a1 = _two(rng, pw, 0.4)
+        if inner:
+            a0, a1 = int(rng.random() < pw), 0
         ops.append(f"cyc w0={rng.randrange(1 << w) if a0 else '-'} w1={rng.randrange(1 << w) if a1 else '-'} rdy={r}")
         if (a0 or a1) and (not valid or r):
             valid = 1
         elif r:
             valid = 0
-    key = ("source", shape)
-    return Case(f"cfg comp=source wp={prio(key)['wp']}", ops, {"component": "StreamSource", "comp": "source", "shape": shape, "consumer": kind}, tag)
+    key = ("source", shape) + (("inner",) if inner else ())
+    return Case(f"cfg comp=source wp={prio(key)['wp']}", ops, {"component": "StreamSource", "comp": "source", "shape": shape, "consumer": kind, "inner": inner}, tag)
 
 
-def _mk_sink(rng, shape: str, n: int, pv: float, pr: float, pk: float, hold: bool, tag="random") -> Case:
+def _mk_sink(rng, shape: str, n: int, pv: float, pr: float, pk: float, hold: bool, tag="random", inner=False) -> Case:
     w = WIDTH[shape]
     ops = []
     v, p = 0, 0
@@ -458,14 +578,16 @@ def _mk_sink(rng, shape: str, n: int, pv: float, pr: float, pk: float, hold: boo
             v, p = int(rng.random() < pv), rng.randrange(1 << w)
         r0, r1 = _two(rng, pr, 0.5)
         k0, k1 = _two(rng, pk, 0.5)
+        if inner:
+            r0, r1, k0, k1 = int(rng.random() < pr), 0, int(rng.random() < pk), 0
         ops.append(f"cyc v={v} p={p} r0={r0} r1={r1} k0={k0} k1={k1}")
         if hold and v and (r0 or r1):
             v = 0  # a protocol-respecting producer holds the item until it is read
-    key = ("sink", shape)
-    return Case(f"cfg comp=sink rp={prio(key)['rp']}", ops, {"component": "StreamSink", "comp": "sink", "shape": shape, "hold": hold}, tag)
+    key = ("sink", shape) + (("inner",) if inner else ())
+    return Case(f"cfg comp=sink rp={prio(key)['rp']}", ops, {"component": "StreamSink", "comp": "sink", "shape": shape, "hold": hold, "inner": inner}, tag)
 
 
-def _mk_wrap(rng, mod: str, w: int, k: int, ish: str, osh: str, n: int, pw: float, pr, tag="random") -> Case:
+def _mk_wrap(rng, mod: str, w: int, k: int, ish: str, osh: str, n: int, pw: float, pr, tag="random", inner=False) -> Case:
     ops = ["shape"]
     for t in range(n):
         a0, a1 = _two(rng, pw, 0.4)
@@ -475,13 +597,15 @@ def _mk_wrap(rng, mod: str, w: int, k: int, ish: str, osh: str, n: int, pw: floa
                 r0, r1 = ((1, 0), (0, 1))[rng.randrange(2)]
         else:
             r0, r1 = _two(rng, pr, 0.5)
+        if inner:
+            a0, a1, r0, r1 = int(a0 or a1), 0, int(r0 or r1), 0
         ops.append(f"cyc w0={rng.randrange(1 << w) if a0 else '-'} w1={rng.randrange(1 << w) if a1 else '-'} r0={r0} r1={r1}")
-    key = ("wrap", mod, w, k, ish, osh)
+    key = ("wrap", mod, w, k, ish, osh) + (("inner",) if inner else ())
     pr_ = prio(key)
     return Case(
         f"cfg comp=wrap mod={mod} w={w} k={k} ish={ish} osh={osh} wp={pr_['wp']} rp={pr_['rp']}",
         ops,
-        {"component": "StreamModuleWrapper", "comp": "wrap", "mod": mod, "w": w, "k": k, "ish": ish, "osh": osh},
+        {"component": "StreamModuleWrapper", "comp": "wrap", "mod": mod, "w": w, "k": k, "ish": ish, "osh": osh, "inner": inner},
         tag,
     )
 
@@ -506,6 +630,16 @@ def gen_cases(ctx: Check) -> list[Case]:
         for w, k, ish, osh in ctx.pick(WRAP_CFGS_Q, WRAP_CFGS_T):
             for pw, pr in [(1.0, 1.0), (0.5, 0.5), (0.9, 0.2), (0.2, 0.9), (1.0, lambda t: t & 1), (0.7, lambda t: int(t % 7 > 4))]:
                 cases.append(_mk_wrap(rng, mod, w, k, ish, osh, n, pw, pr))
+    # constructed under one DependencyContext, elaborated under another, methods called by transactions inside the design
+    for mod in ("pass", "reg", "stutter", "dup"):
+        for w, k, ish, osh in ctx.pick(WRAP_CFGS_Q[:2], WRAP_CFGS_T[:4]):
+            for pw, pr in [(1.0, 1.0), (0.6, 0.5), (0.9, lambda t: int(t % 5 > 2))]:
+                cases.append(_mk_wrap(rng, mod, w, k, ish, osh, n, pw, pr, "directed", inner=True))
+    for shape in shapes[:2]:
+        for kind in ("rand", "toggle", "after_valid"):
+            cases.append(_mk_source(rng, shape, kind, n, 0.8, "directed", inner=True))
+        cases.append(_mk_sink(rng, shape, n, 0.6, 0.5, 0.5, False, "directed", inner=True))
+        cases.append(_mk_sink(rng, shape, n, 0.8, 0.4, 0.7, True, "directed", inner=True))
     if ctx.thorough:
         # every (write?, write?, ready) history of length <= 4 for the source; every (valid, r0, r1, k0, k1) history of length <= 2
         for L in range(1, 5):
@@ -537,11 +671,11 @@ def more_cases(case: Case, rng):
     d = case.desc
     for j in range(30):
         if d["comp"] == "source":
-            yield _mk_source(rng, d["shape"], READY_KINDS[j % len(READY_KINDS)], 80, rng.choice([1.0, 0.5]), "search")
+            yield _mk_source(rng, d["shape"], READY_KINDS[j % len(READY_KINDS)], 80, rng.choice([1.0, 0.5]), "search", inner=bool(d.get("inner")))
         elif d["comp"] == "sink":
-            yield _mk_sink(rng, d["shape"], 60, 0.6, 0.5, 0.5, bool(j & 1), "search")
+            yield _mk_sink(rng, d["shape"], 60, 0.6, 0.5, 0.5, bool(j & 1), "search", inner=bool(d.get("inner")))
         else:
-            yield _mk_wrap(rng, d["mod"], d["w"], d["k"], d["ish"], d["osh"], 80, rng.choice([1.0, 0.5]), rng.choice([1.0, 0.5, 0.2]), "search")
+            yield _mk_wrap(rng, d["mod"], d["w"], d["k"], d["ish"], d["osh"], 80, rng.choice([1.0, 0.5]), rng.choice([1.0, 0.5, 0.2]), "search", inner=bool(d.get("inner")))
 
 
 def nontrivial(case: Case, out: list[str]) -> bool:
@@ -549,6 +683,10 @@ def nontrivial(case: Case, out: list[str]) -> bool:
     pairs = [(op, o) for op, o in zip(case.ops, out[1:]) if op.startswith("cyc")]
     ins = [_parse(op) for op, _ in pairs]
     obs = [dict(x.split("=") for x in o.split()) for _, o in pairs]
+    if d.get("inner"):
+        if d["comp"] == "source":
+            return any(o["valid"] == "1" and i["rdy"] == "0" for i, o in zip(ins, obs)) and sum(o["w0"] == "1" for o in obs) >= 3
+        return sum(o["r0"] != "-" for o in obs) >= 3
     if d["comp"] == "source":
         stall = any(o["valid"] == "1" and i["rdy"] == "0" for i, o in zip(ins, obs))
         b2b = any(o["valid"] == "1" and i["rdy"] == "1" and "1" in (o["w0"], o["w1"]) for i, o in zip(ins, obs))
@@ -574,6 +712,7 @@ def run(ctx: Check):
     for comp in ("source", "sink", "wrap"):
         ctx.count(f"cases_{comp}", sum(1 for c in cases if c.desc["comp"] == comp))
     ctx.count("cycles", sum(len(c.ops) for c in cases))
+    ctx.count("cases_constructed_in_foreign_dependency_context", sum(1 for c in cases if c.desc.get("inner")))
     ctx.note("which of two simultaneously attempting callers is granted is probed on the real circuit (cfg wp=/rp=); the monitor "
              "accepts either winner")
     if ctx.thorough:
